@@ -753,6 +753,28 @@ pub fn run(ctx: &mut Ctx) {
             decode_oracle(ctx, &base, enc, &frame, false);
         }
     }
+    // multi-byte characters anywhere near the end of otherwise valid text (whatever the decoder measures in bytes, a
+    // character may straddle it): outside every alphabet, so the answer is nil
+    for enc in ENC {
+        let valid: Vec<String> = [&b"hello world, this is text"[..], &b"\x00\x01\x02\x03\x04\x05\x06\x07"[..], &b"abc"[..], &b""[..]].iter()
+            .filter_map(|b| run_word(&base, enc, &[bytes_cell(b)]).top.as_ref().and_then(str_of_cell)).collect();
+        for v in &valid {
+            let chars: Vec<char> = v.chars().collect();
+            for back in 0..=chars.len().min(9) {
+                let at = chars.len() - back;
+                for ch in ['é', '€', '😀'] {
+                    for marks in [0usize, 2, 4] {
+                        let mut t: String = chars[..at].iter().collect();
+                        t.push(ch);
+                        t.extend(chars[at..].iter());
+                        if *enc == "zero85" { t.push_str(&"#".repeat(marks)); } else if marks > 0 { continue; }
+                        ctx.tag("multibyte-near-the-end");
+                        decode_oracle(ctx, &base, enc, &t, false);
+                    }
+                }
+            }
+        }
+    }
     // z85 tail scopes: every tail shape `#…#` + letters, including the all-marks chunk
     for marks in 0..=5 {
         for body in ["", "00000", "HelloWorld"] {
